@@ -134,7 +134,7 @@ def drive(ctx: Ctx, strategy, body: Callable[[Any], None], total: int, chunk: in
 			if ctx.out_of_time() and cases_run[0] >= floor:
 				raise _Stop()
 			cases_run[0] += 1
-			body(x)
+			_with_case_watchdog(ctx, body, x)
 
 		try:
 			test()
@@ -142,6 +142,40 @@ def drive(ctx: Ctx, strategy, body: Callable[[Any], None], total: int, chunk: in
 			break
 		done += n
 		k += 1
+
+
+class _CaseTimeout(BaseException):
+	pass
+
+
+def _with_case_watchdog(ctx: Ctx, body: Callable[[Any], None], x: Any) -> None:
+	"""Runs body(x) under a generous per-case alarm (checks with their own, tighter watchdog nest inside it). A case that does not finish is
+	counted as inconclusive (never a verdict) and kept for diagnosis in the evidence, and the shard goes on."""
+	import signal
+	limit = float(ctx.budget.get('case_seconds', 180))
+
+	def on_alarm(signum, frame):
+		raise _CaseTimeout()
+
+	try:
+		old = signal.signal(signal.SIGALRM, on_alarm)
+	except ValueError:  # not in the main thread
+		body(x)
+		return
+	previous = signal.setitimer(signal.ITIMER_REAL, limit)
+	try:
+		body(x)
+	except _CaseTimeout:
+		ctx.timeouts += 1
+		ctx.discards['inconclusive:case-timeout'] += 1
+		kept = ctx.extra.setdefault('timed_out_cases', [])
+		if len(kept) < 3:
+			kept.append(repr(x)[:2000])
+	finally:
+		signal.setitimer(signal.ITIMER_REAL, 0)
+		signal.signal(signal.SIGALRM, old)
+		if previous[0] > 0:
+			signal.setitimer(signal.ITIMER_REAL, previous[0])
 
 
 def _drive_atheris(ctx: Ctx, strategy, body: Callable[[Any], None]) -> None:
